@@ -397,6 +397,105 @@ def wg_noop(I, args, ins):
     return None
 
 
+# ----------------------------------------------------------------------------- sync.Map (association list; key equality by the solver)
+def _smap(I, p):
+    tab = I.path.ghost.setdefault('syncmap', {})
+    return tab.setdefault((id(p.c), p.i), [])
+
+
+def _key_eq(I, a, b):
+    """Go interface equality of two map keys: python bool or z3 Bool"""
+    import z3
+    if isinstance(a, Iface) and isinstance(b, Iface):
+        if a.tid != b.tid:
+            return False
+        a, b = a.v, b.v
+    elif isinstance(a, Iface) or isinstance(b, Iface):
+        return a is b
+    if isinstance(a, (str, SymStr)) and isinstance(b, (str, SymStr)):
+        if isinstance(a, str) and isinstance(b, str):
+            return a == b
+        return I.str_term(a) == I.str_term(b)
+    if isinstance(a, (int, bool)) and isinstance(b, (int, bool)):
+        return a == b
+    try:
+        if z3.is_expr(a) or z3.is_expr(b):
+            return a == b
+    except Exception:
+        pass
+    if isinstance(a, Ptr) and isinstance(b, Ptr):
+        return a.c is b.c and a.i == b.i
+    if a is None or b is None:
+        return a is b
+    raise Inconclusive('sync.Map key comparison of %r and %r' % (type(a).__name__, type(b).__name__))
+
+
+def _smap_find(I, ents, k):
+    for i, (kk, vv) in enumerate(ents):
+        e = _key_eq(I, kk, k)
+        if e is True or (e is not False and I.fork_bool(e, 'sync.Map-key')):
+            return i
+    return -1
+
+
+@contract('(*sync.Map).Load')
+def smap_load(I, args, ins):
+    ents = _smap(I, args[0])
+    i = _smap_find(I, ents, args[1])
+    return (ents[i][1], True) if i >= 0 else (None, False)
+
+
+@contract('(*sync.Map).Store')
+def smap_store(I, args, ins):
+    ents = _smap(I, args[0])
+    i = _smap_find(I, ents, args[1])
+    if i >= 0:
+        ents[i] = (args[1], args[2])
+    else:
+        ents.append((args[1], args[2]))
+    return None
+
+
+@contract('(*sync.Map).LoadOrStore')
+def smap_load_or_store(I, args, ins):
+    ents = _smap(I, args[0])
+    i = _smap_find(I, ents, args[1])
+    if i >= 0:
+        return (ents[i][1], True)
+    ents.append((args[1], args[2]))
+    return (args[2], False)
+
+
+@contract('(*sync.Map).Delete')
+def smap_delete(I, args, ins):
+    ents = _smap(I, args[0])
+    i = _smap_find(I, ents, args[1])
+    if i >= 0:
+        ents.pop(i)
+    return None
+
+
+@contract('(*sync.Map).LoadAndDelete')
+def smap_load_and_delete(I, args, ins):
+    ents = _smap(I, args[0])
+    i = _smap_find(I, ents, args[1])
+    if i >= 0:
+        return (ents.pop(i)[1], True)
+    return (None, False)
+
+
+@contract('(*sync.Map).Range')
+def smap_range(I, args, ins):
+    for (k, v) in list(_smap(I, args[0])):
+        r = I.call_value(args[1], [k, v], ins)
+        if r is False:
+            break
+        if r is not True:
+            if not I.fork_bool(r, 'sync.Map-range'):
+                break
+    return None
+
+
 @contract('runtime.Gosched', 'runtime.KeepAlive')
 def rt_noop(I, args, ins):
     return None
